@@ -13,7 +13,7 @@ C19) whose PREMISES are what the obligations below check on the code:
 """
 import re
 import core
-from symterm import TermBuilder, K, norm, strip_casts, show, walk, addends
+from symterm import TermBuilder, K, norm, strip_casts, show, walk, addends, straight_line
 import vecsem
 
 LEVEL = 'other'
@@ -201,7 +201,14 @@ def page_bytes(b):
 def run(ctx):
     F = ctx.F
     vbs = [b for p, b in sorted(F.bodies.items()) if b.kind != 'closure' and any(ARCH_RX.search(n) for _, t in b.calls() for n in core.call_names(t))]
-    ctx.ob('0a vector-routine-anchor', 'anchor', '-', 'exactly one function of the crate uses vector intrinsics (the page search); a second one would need its own review',
+    # (part of the vector computation may sit in straight-line helpers that only the search routine calls: they are expanded
+    # into its terms)
+    if len(vbs) > 1:
+        helpers = [b for b in vbs if straight_line(b) and F.callers(b.path) and all(c in [x.path for x in vbs] and c != b.path for c in F.callers(b.path))]
+        roots = [b for b in vbs if b not in helpers]
+        if len(roots) == 1:
+            vbs = roots
+    ctx.ob('0a vector-routine-anchor', 'anchor', '-', 'exactly one function of the crate uses vector intrinsics (the page search, with straight-line helpers of its own at most); a second one would need its own review',
            len(vbs) == 1, str([b.path for b in vbs]))
     ctx.info['C19.vector_bodies'] = [b.path for b in vbs]
     if len(vbs) != 1:
@@ -551,40 +558,105 @@ def run(ctx):
     rds = ts.defs_of_var(0) if ts.local(0) == ('var', 0) else []
     found = [d for d in rds if strip_casts(d[1])[0] == 'agg' and len(strip_casts(d[1])[2]) == 2 and entry_of(strip_casts(d[1])[2][0])[0] == 'mem']
     missd = [d for d in rds if d not in found]
-    ctx.ob('7a scalar-anchor', 'anchor', sfn, 'the scalar routine has one loop, one "found" return of (entry, index) and one other return', len(sloops) == 1 and len(found) == 1 and len(missd) == 1,
+    # the same routine written with iterator adaptors: (start..slots).map(|i| (read(i), i)).find(|(e, _)| test(e)).unwrap_or(miss)
+    chain = None
+    r0 = strip_casts(ts.local(0))
+    if not sloops and r0[0] == 'call' and re.search(r'Option::<.*>::unwrap_or$', r0[1]) and len(r0[2]) == 2:
+        f_ = strip_casts(r0[2][0])
+        if f_[0] == 'call' and f_[1].endswith('Iterator::find') and len(f_[2]) == 2:
+            m_ = strip_casts(f_[2][0])
+            if m_[0] == 'call' and m_[1].endswith('Iterator::map') and len(m_[2]) == 2 and m_[2][0][0] == 'agg' and m_[2][0][1].endswith('ops::Range'):
+                cl0, cl1 = m_[2][1], f_[2][1]
+                if cl0[0] == 'agg' and cl1[0] == 'agg' and cl0[1].startswith('Closure:') and cl1[1].startswith('Closure:'):
+                    chain = (m_[2][0][2], F.bodies.get(cl0[1][8:]), cl0, F.bodies.get(cl1[1][8:]), cl1, r0[2][1])
+    ctx.ob('7a scalar-anchor', 'anchor', sfn, 'the scalar routine has one loop, one "found" return of (entry, index) and one other return (or is the adaptor chain range.map(read).find(test).unwrap_or(miss))',
+           (len(sloops) == 1 and len(found) == 1 and len(missd) == 1) or (chain is not None and chain[1] is not None and chain[3] is not None),
            'loops %d found %d other %d' % (len(sloops), len(found), len(missd)), sb.loc())
-    if not (len(sloops) == 1 and len(found) == 1 and len(missd) == 1):
-        return
-    SH, SLB, _ = sloops[0]
-    r = strip_casts(found[0][1])
-    ent, idx = entry_of(r[2][0]), strip_casts(norm(r[2][1]))
-    rng = None
-    q = idx
-    while q[0] == 'fld':
-        q = q[1]
-    if q[0] == 'call' and q[1].endswith('::next') and q[2] and q[2][0][0] == 'agg' and q[2][0][1].endswith('ops::Range'):
-        rng = q[2][0][2]
-    ok = rng is not None and strip_casts(rng[0])[0] == 'arg' and strip_casts(rng[1])[0] == 'k'
-    ctx.ob('7b scalar-ranges-from-start-to-slots', 'K7-bound', sfn, 'the index of the reference loop iterates the range start..slots (step one, ascending)', ok, show(idx)[:160])
-    sN = strip_casts(rng[1])[1] if ok else None
-    ok = ent[0] == 'mem' and ent[3] == 8 and linear(ent[2]) == ({idx: 8}, 0)
-    ctx.ob('7c scalar-returns-the-entry-at-its-index', 'K4-provenance', sfn, 'found: (entry read at 8*index, index)', ok, show(ent)[:160])
-    # guards of the found return
-    fb = found[0][0]
-    back_edges = frozenset((u, SH) for u in SLB if SH in sb.succ(u))
+
+    def uncapture(t):
+        """fld(Closure(captures..), .^k) -> the k-th captured term"""
+        if not isinstance(t, tuple):
+            return t
+        if len(t) == 3 and t[0] == 'fld' and isinstance(t[1], tuple) and t[1][:1] == ('agg',) and str(t[1][1]).startswith('Closure:') and re.match(r'^\.\^\d+$', str(t[2])):
+            k_ = int(t[2][2:])
+            if k_ < len(t[1][2]):
+                return uncapture(t[1][2][k_])
+        return tuple(uncapture(x) if isinstance(x, tuple) else x for x in t)
     guards = []
-    for bi in sorted(SLB):
-        t = sb.term(bi)
-        if t['k'] != 'switch':
-            continue
-        st = switch_test(sb, ts, bi)
-        if st is None:
-            continue
-        yes = [x for x in set(t['ts']) if fb in sb.reachable_from([x], removed_edges=back_edges)]
-        if len(yes) == len(set(t['ts'])):
-            continue
-        if len(yes) == 1:
-            guards.append((bi, st[0], yes[0] == st[1]))
+    if chain is not None and chain[1] is not None and chain[3] is not None:
+        rng, b0, a0, b1, a1, miss_t = chain
+        idx = ('var', -1)
+        item = uncapture(TermBuilder(F, b0, args=(a0, idx)).local(0)) if straight_line(b0) and b0.argc == 2 else ('?',)
+        ok = strip_casts(rng[0])[0] == 'arg' and strip_casts(rng[1])[0] == 'k'
+        ctx.ob('7b scalar-ranges-from-start-to-slots', 'K7-bound', sfn, 'the index of the reference loop iterates the range start..slots (step one, ascending)', ok, show(rng[0])[:80] + '..' + show(rng[1])[:80])
+        sN = strip_casts(rng[1])[1] if ok else None
+        item = strip_casts(item)
+        ent = strip_casts(norm(entry_of(item[2][0]))) if item[0] == 'agg' and len(item[2]) == 2 else ('?',)
+        ok = item[0] == 'agg' and len(item[2]) == 2 and strip_casts(norm(item[2][1])) == idx and ent[0] == 'mem' and ent[3] == 8 and linear(ent[2]) == ({idx: 8}, 0)
+        ctx.ob('7c scalar-returns-the-entry-at-its-index', 'K4-provenance', sfn, 'found: (entry read at 8*index, index)', ok, show(item)[:160])
+        # the test: what has to hold for the closure to answer true
+        t1 = TermBuilder(F, b1, args=(a1, item)) if b1.argc == 2 else None
+        rets = t1.defs_of_var(0) if t1 is not None and t1.local(0) in (('var', 0), ('cvar', 0)) else ([(None, t1.local(0))] if t1 is not None else [])
+        yes_defs = [d for d in rets if strip_casts(d[1]) != K(0)]
+        if len(yes_defs) == 1:
+            yb = yes_defs[0][0]
+            guards.append((None, uncapture(yes_defs[0][1]), True))
+            for bi in sorted(b1.normal_blocks()):
+                t = b1.term(bi)
+                if t['k'] != 'switch' or yb is None:
+                    continue
+                st = switch_test(b1, t1, bi)
+                if st is None:
+                    continue
+                yes = [x for x in set(t['ts']) if yb in b1.reachable_from([x]) or x == yb]
+                if len(yes) == 1 and len(set(t['ts'])) > 1:
+                    guards.append((bi, uncapture(st[0]), yes[0] == st[1]))
+        else:
+            guards.append((None, ('?',), True))
+        mr = strip_casts(miss_t)
+        miss_outside = True
+    elif len(sloops) == 1 and len(found) == 1 and len(missd) == 1:
+        SH, SLB, _ = sloops[0]
+        r = strip_casts(found[0][1])
+        ent, idx = entry_of(r[2][0]), strip_casts(norm(r[2][1]))
+        rng = None
+        q = idx
+        while q[0] == 'fld':
+            q = q[1]
+        if q[0] == 'call' and q[1].endswith('::next') and q[2] and q[2][0][0] == 'agg' and q[2][0][1].endswith('ops::Range'):
+            rng = q[2][0][2]
+        ok = rng is not None and strip_casts(rng[0])[0] == 'arg' and strip_casts(rng[1])[0] == 'k'
+        ctx.ob('7b scalar-ranges-from-start-to-slots', 'K7-bound', sfn, 'the index of the reference loop iterates the range start..slots (step one, ascending)', ok, show(idx)[:160])
+        sN = strip_casts(rng[1])[1] if ok else None
+        ok = ent[0] == 'mem' and ent[3] == 8 and linear(ent[2]) == ({idx: 8}, 0)
+        ctx.ob('7c scalar-returns-the-entry-at-its-index', 'K4-provenance', sfn, 'found: (entry read at 8*index, index)', ok, show(ent)[:160])
+        # guards of the found return
+        fb = found[0][0]
+        back_edges = frozenset((u, SH) for u in SLB if SH in sb.succ(u))
+        for bi in sorted(SLB):
+            t = sb.term(bi)
+            if t['k'] != 'switch':
+                continue
+            st = switch_test(sb, ts, bi)
+            if st is None:
+                continue
+            yes = [x for x in set(t['ts']) if fb in sb.reachable_from([x], removed_edges=back_edges)]
+            if len(yes) == len(set(t['ts'])):
+                continue
+            if len(yes) == 1:
+                guards.append((bi, st[0], yes[0] == st[1]))
+        mr = strip_casts(missd[0][1])
+        miss_outside = missd[0][0] not in SLB
+    else:
+        return
+    # `!x` holding is x not holding
+    g2 = []
+    for bi, tm, nonzero in guards:
+        tm = strip_casts(norm(tm))
+        while isinstance(tm, tuple) and tm[0] == 'un' and tm[1] == 'Not':
+            tm, nonzero = strip_casts(norm(tm[2])), not nonzero
+        g2.append((bi, tm, nonzero))
+    guards = g2
     eqg = [g for g in guards if strip_casts(g[1])[0] == 'bin']
     pk_ok = em_ok = False
     s_ab = s_key = s_ib = s_page = None
@@ -619,8 +691,7 @@ def run(ctx):
     ctx.ob('7d scalar-match-is-partial-key-equality', 'K3-guard', sfn, 'found is returned only if entry >> address bits == (key << index bits) >> address bits', pk_ok, str(others))
     ctx.ob('7e scalar-rejects-empty-entries', 'K3-guard', sfn, 'found is returned only if the entry is not zero (empty)', em_ok, str(others))
     ctx.ob('7f scalar-has-no-further-filter', 'K3-guard', sfn, 'no other condition decides whether a slot is returned', not others, str(others))
-    mr = strip_casts(missd[0][1])
-    ok = mr[0] == 'agg' and entry_of(mr[2][0]) == K(0) and missd[0][0] not in SLB
+    ok = mr[0] == 'agg' and entry_of(mr[2][0]) == K(0) and miss_outside
     ctx.ob('7g scalar-miss-answers-the-empty-entry', 'K9-agreement', sfn, 'after the range is exhausted the empty entry is returned', ok, show(mr)[:120])
 
     # ---- agreement of the two routines (premises of L1, shared constants)
